@@ -107,6 +107,8 @@ pub fn judge_search(root: &Pos, out: &Outcome, rep: &mut Report, replay: &monlib
             }
         }
     }
+    let pv_lens: Vec<usize> = out.infos.iter().filter_map(|i| i.pv.as_ref().map(|p| p.len())).collect();
+    if pv_lens.len() >= 2 && *pv_lens.last().unwrap() == 1 && pv_lens.iter().any(|l| *l >= 2) { rep.count("searches_whose_final_pv_shrank_to_one_move"); }
     let last_pv = out.infos.iter().rev().find_map(|i| i.pv.clone());
     match last_pv {
         Some(pv) => {
@@ -171,6 +173,68 @@ pub fn play_session(d: &mut dyn Driver, rng: &mut StdRng, starts: &mut gen::Star
     let _ = d.send(&Gui::Quit);
 }
 
+/// Sessions made of unrelated roots (as in C07: histories with recurring positions, roots that already
+/// occurred two or three times, mate / stalemate roots, large move numbers) searched to depth 1-5.
+pub fn root_session(d: &mut dyn Driver, rng: &mut StdRng, starts: &mut gen::Starts, cycles: usize, rep: &mut Report) {
+    for i in 0..cycles {
+        // half of the roots offer an immediate draw by repetition (the engine may switch to it at a
+        // deeper iteration: the reported PV then shrinks to one move)
+        let (cmd, root) = random_root_with(rng, starts, 50);
+        let (mut go, mut stop) = random_go(rng, &root.pos, true);
+        if rng.gen_bool(0.6) { go = GoSpec { depth: Some(rng.gen_range(3..=5)), ..Default::default() }; stop = None; }
+        let c = Cycle { new_game: i == 0 || rng.gen_range(0..10) == 0, position: Some(cmd.clone()), go, stop_after_us: stop, extra: vec![], during: random_during(rng) };
+        let replay = json!({"kind":"c16-session","script":[format!("{} | {}", Gui::Position { fen: cmd.0.clone(), moves: cmd.1.clone() }.text(), Gui::Go(c.go.clone()).text())]});
+        match run_cycle(d, &c) {
+            CycleResult::Answered(out) => {
+                judge_search(&root.pos, &out, rep, &replay);
+                rep.count("root_session_searches");
+                if root.occurrences_of_root() >= 2 { rep.count("searches_from_roots_that_occurred_before"); }
+            }
+            CycleResult::Watchdog => { rep.inconclusive("watchdog fired while the search thread was alive"); return; }
+            CycleResult::Dead(e) => { rep.violation("engine-died", e, replay); return; }
+        }
+    }
+    let _ = d.send(&Gui::Quit);
+}
+
+/// Output-stream stress on the real process: the search thread prints an `info` line at every poll
+/// (hooked build, poll interval 50 nodes) while the main thread answers a burst of `isready` / `uci`
+/// commands. Every line must still be one intact message and every `isready` answered exactly once.
+pub fn output_stress(app_hooked: &str, rng: &mut StdRng, rep: &mut Report) {
+    let mut a = match App::spawn(app_hooked, &[("INKAYAKU_VERIF_POLL", "50".to_string())]) { Ok(a) => a, Err(e) => { rep.inconclusive(&format!("app not started: {}", e)); return; } };
+    let n_ready = rng.gen_range(800..2000usize);
+    let _ = a.send(&Gui::Position { fen: None, moves: vec![] });
+    let _ = a.send(&Gui::Go(GoSpec { infinite: true, ..Default::default() }));
+    let mut n_uci = 0;
+    for i in 0..n_ready {
+        let _ = a.send(&Gui::IsReady);
+        if i % 97 == 0 { let _ = a.send(&Gui::Uci); n_uci += 1; }
+        // spread the burst over ~100-200 ms so that it overlaps thousands of info lines
+        if i % 40 == 39 { std::thread::sleep(Duration::from_millis(4)); }
+    }
+    let _ = a.send(&Gui::Stop);
+    let answered = a.await_bestmove(WATCHDOG).is_ok();
+    let _ = a.send(&Gui::Quit);
+    let code = a.finish(Duration::from_secs(30));
+    let _ = a.drain(Duration::from_millis(200));
+    rep.count("output_stress_sessions");
+    if !answered { rep.inconclusive("output stress: bestmove did not arrive"); return; }
+    let mut readyok = 0;
+    let mut uciok = 0;
+    for (k, line) in a.raw_lines.iter().enumerate() {
+        if k == 0 { continue; }
+        rep.eval();
+        match validate_line(line) {
+            Ok(kind) => { rep.count(&format!("stress_lines_{}", kind)); if kind == "readyok" { readyok += 1; } if kind == "uciok" { uciok += 1; } }
+            Err(e) => rep.violation(&format!("malformed-output-line-under-concurrent-output:{}", e.split(' ').take(3).collect::<Vec<_>>().join("-")), format!("line {:?}: {}", line, e), json!({"kind":"c16-line","line":line})),
+        }
+    }
+    if readyok != n_ready || uciok != n_uci {
+        rep.violation("answers-lost-or-duplicated-under-concurrent-output", format!("{} isready sent, {} readyok lines; {} uci sent, {} uciok lines", n_ready, readyok, n_uci, uciok), json!({"kind":"c16-stress"}));
+    }
+    if code != Some(0) { rep.violation("app-exit-code", format!("engine process exited with {:?} after the output stress", code), json!({"kind":"c16-stress"})); }
+}
+
 pub fn run(args: &monlib::Args, rep: &mut Report) {
     let mut rng = gen::rng(args.seed, args.shard, 16);
     let mut starts = gen::Starts::new(60, 30000, args.shard as usize * 19);
@@ -207,9 +271,25 @@ pub fn run(args: &monlib::Args, rep: &mut Report) {
         } else {
             let mut s = InProc::new();
             s.record_infos = false;
-            play_session(&mut s, &mut rng, &mut starts, cycles, rep);
+            if i % 4 == 1 {
+                let mut starts7 = gen::Starts::new(3000, 30000, args.shard as usize * 29 + i as usize);
+                root_session(&mut s, &mut rng, &mut starts7, cycles.min(12), rep);
+            } else {
+                play_session(&mut s, &mut rng, &mut starts, cycles, rep);
+            }
             rep.count("in_process_sessions");
         }
+    }
+    // dedicated root sessions (repetition-offering histories, depth 3-5)
+    let n_root = args.budget(320, 8000) / args.nshards.max(1);
+    for k in 0..n_root {
+        let mut s = InProc::new();
+        s.record_infos = false;
+        let mut starts7 = gen::Starts::new(3000, 30000, args.shard as usize * 31 + k as usize);
+        root_session(&mut s, &mut rng, &mut starts7, 12, rep);
+    }
+    if let Some(h) = args.rest.get("app-hooked") {
+        for _ in 0..args.budget(2, 12) { output_stress(h, &mut rng, rep); }
     }
 }
 
